@@ -46,7 +46,15 @@ func (h *Sources) Save() {
 		line.pos = len(line.items)
 	}
 
-	line.items = line.items[:len(line.items)-line.pos]
+	// The item at the current position is the state being shown: if the line
+	// has been changed from it, it is kept (only the newer ones go), otherwise
+	// it is replaced by the line as it is now.
+	undone := line.pos
+	if undone > 0 && line.items[len(line.items)-undone].line != string(*h.line) {
+		undone--
+	}
+
+	line.items = line.items[:len(line.items)-undone]
 
 	// Make a copy of the cursor and ensure its position.
 	cur := core.NewCursor(h.line)
